@@ -167,61 +167,64 @@ func TestVerif_C12(t *testing.T) {
 		if !verifkit.Mine(ci) {
 			continue
 		}
-		r := verifkit.Rand("C12", ci)
-		sc := c01Generate(r, ci >= nShort)
-		adv := &adversary{r: rand.New(rand.NewSource(r.Int63())), other: verifkit.NewTree(), uni: verifkit.NewUniverse(r, 6),
-			txs: map[bitcoin.Hash32]*wire.MsgTx{}, txFrom: map[bitcoin.Hash32]*advConn{}, acts: map[string]int{}}
-		adv.otherT = adv.other.ExtendN(adv.other.Genesis, 6)
-		adv.subs = [][]byte{randB(r, 20)}
-		nconn := 1 + r.Intn(3)
-		pct := 10 + r.Intn(40)
-		s, err := c12Run(r, sc, adv, nconn, pct)
-		if err != nil {
-			rep.Inconc(ci, err.Error())
-			continue
-		}
-		// callbacks: proofs only for blocks of the trusted tree; untrusted txs never safe;
-		// transactions sent while unverified never delivered
-		for _, ev := range s.e.log.snapshot() {
-			if ev.Kind != "tx" && ev.Kind != "update" {
-				continue
+		ci := ci
+		verifkit.RunCase(rep, ci, func() {
+			r := verifkit.Rand("C12", ci)
+			sc := c01Generate(r, ci >= nShort)
+			adv := &adversary{r: rand.New(rand.NewSource(r.Int63())), other: verifkit.NewTree(), uni: verifkit.NewUniverse(r, 6),
+				txs: map[bitcoin.Hash32]*wire.MsgTx{}, txFrom: map[bitcoin.Hash32]*advConn{}, acts: map[string]int{}}
+			adv.otherT = adv.other.ExtendN(adv.other.Genesis, 6)
+			adv.subs = [][]byte{randB(r, 20)}
+			nconn := 1 + r.Intn(3)
+			pct := 10 + r.Intn(40)
+			s, err := c12Run(r, sc, adv, nconn, pct)
+			if err != nil {
+				rep.Inconc(ci, err.Error())
+				return
 			}
-			if mp := ev.State.MerkleProof; mp != nil {
-				if b := s.peer.tree.ByHash[*mp.BlockHeader.BlockHash()]; b == nil {
-					s.find("C12", "C12/confirmation-for-foreign-block", "a notification carries a proof for a block the trusted peer never announced")
+			// callbacks: proofs only for blocks of the trusted tree; untrusted txs never safe;
+			// transactions sent while unverified never delivered
+			for _, ev := range s.e.log.snapshot() {
+				if ev.Kind != "tx" && ev.Kind != "update" {
+					continue
+				}
+				if mp := ev.State.MerkleProof; mp != nil {
+					if b := s.peer.tree.ByHash[*mp.BlockHeader.BlockHash()]; b == nil {
+						s.find("C12", "C12/confirmation-for-foreign-block", "a notification carries a proof for a block the trusted peer never announced")
+					}
+				}
+				if _, fromAdv := adv.txs[ev.TxID]; fromAdv {
+					if ev.State.Safe {
+						s.find("C12", "C12/untrusted-tx-reported-safe", "a transaction only untrusted peers sent was reported safe")
+					}
+					if c := adv.txFrom[ev.TxID]; c != nil && c.sentTxs[ev.TxID] {
+						s.find("C12", "C12/unverified-peer-tx-delivered", "a transaction sent by a peer that was not verified at the time reached a handler")
+					}
 				}
 			}
-			if _, fromAdv := adv.txs[ev.TxID]; fromAdv {
-				if ev.State.Safe {
-					s.find("C12", "C12/untrusted-tx-reported-safe", "a transaction only untrusted peers sent was reported safe")
+			for _, f := range s.finds {
+				sig := f.sig
+				if f.prop == "C01" || f.prop == "C13" {
+					sig = "C12/" + f.sig // trusted-side invariant broken in the presence of the adversary
+				} else if f.prop != "C12" {
+					rep.Event("other_property_findings:"+f.sig, 1)
+					continue
 				}
-				if c := adv.txFrom[ev.TxID]; c != nil && c.sentTxs[ev.TxID] {
-					s.find("C12", "C12/unverified-peer-tx-delivered", "a transaction sent by a peer that was not verified at the time reached a handler")
-				}
+				w := s.witness()
+				w["scenario"] = sc
+				w["adversary_actions"] = adv.acts
+				rep.Finding(ci, sig, f.detail+" | adversary actions: "+fmt.Sprint(adv.acts), w)
 			}
-		}
-		for _, f := range s.finds {
-			sig := f.sig
-			if f.prop == "C01" || f.prop == "C13" {
-				sig = "C12/" + f.sig // trusted-side invariant broken in the presence of the adversary
-			} else if f.prop != "C12" {
-				rep.Event("other_property_findings:"+f.sig, 1)
-				continue
+			nt := adv.acts["block-bogus-body-for-outstanding-request"]+adv.acts["block-genuine-for-outstanding-request"]+adv.acts["headers-valid-proof"] > 0
+			for k, v := range adv.acts {
+				rep.Event("adversary:"+k, int64(v))
 			}
-			w := s.witness()
-			w["scenario"] = sc
-			w["adversary_actions"] = adv.acts
-			rep.Finding(ci, sig, f.detail+" | adversary actions: "+fmt.Sprint(adv.acts), w)
-		}
-		nt := adv.acts["block-bogus-body-for-outstanding-request"]+adv.acts["block-genuine-for-outstanding-request"]+adv.acts["headers-valid-proof"] > 0
-		for k, v := range adv.acts {
-			rep.Event("adversary:"+k, int64(v))
-		}
-		rep.Event("scenarios", 1)
-		rep.Case(c01Fingerprint(sc)+fmt.Sprint(adv.acts), nt)
-		if rep.WantSample() && nt {
-			rep.Sample(map[string]interface{}{"scenario": fmt.Sprint(sc.Steps), "adversary_actions": adv.acts})
-		}
+			rep.Event("scenarios", 1)
+			rep.Case(c01Fingerprint(sc)+fmt.Sprint(adv.acts), nt)
+			if rep.WantSample() && nt {
+				rep.Sample(map[string]interface{}{"scenario": fmt.Sprint(sc.Steps), "adversary_actions": adv.acts})
+			}
+		})
 	}
 }
 
